@@ -204,6 +204,14 @@ def compute_dyadic_downscaling(info, source_scale_index, downscaler,
 
         return downscaler.downscale(chunk, downscaling_factors)
 
+    def copy_block(dest, block):
+        # Do not rely on NumPy broadcasting to detect incompatible chunk
+        # sizes: a block of extent 1 would silently be replicated.
+        if dest.shape != block.shape:
+            raise ValueError("Unsupported combination of chunk sizes between "
+                             f"scales {old_key} and {new_key}")
+        dest[...] = block
+
     chunk_range = (ceil_div(new_size[0], new_chunk_size[0]),
                    ceil_div(new_size[1], new_chunk_size[1]),
                    ceil_div(new_size[2], new_chunk_size[2]))
@@ -223,66 +231,74 @@ def compute_dyadic_downscaling(info, source_scale_index, downscaler,
             [num_channels, zmax - zmin, ymax - ymin, xmax - xmin],
             dtype=dtype
         )
-        new_chunk[:, :half_chunk[2], :half_chunk[1],
-                  :half_chunk[0]] = (
-                      load_and_downscale_old_chunk(
-                          z_idx * chunk_fetch_factor[2],
-                          y_idx * chunk_fetch_factor[1],
-                          x_idx * chunk_fetch_factor[0]))
+        copy_block(
+            new_chunk[:, :half_chunk[2], :half_chunk[1],
+                      :half_chunk[0]],
+            load_and_downscale_old_chunk(
+                z_idx * chunk_fetch_factor[2],
+                y_idx * chunk_fetch_factor[1],
+                x_idx * chunk_fetch_factor[0]))
         if new_chunk.shape[1] > half_chunk[2]:
-            new_chunk[:, half_chunk[2]:, :half_chunk[1],
-                      :half_chunk[0]] = (
-                          load_and_downscale_old_chunk(
-                              z_idx * chunk_fetch_factor[2] + 1,
-                              y_idx * chunk_fetch_factor[1],
-                              x_idx * chunk_fetch_factor[0]))
+            copy_block(
+                new_chunk[:, half_chunk[2]:, :half_chunk[1],
+                          :half_chunk[0]],
+                load_and_downscale_old_chunk(
+                    z_idx * chunk_fetch_factor[2] + 1,
+                    y_idx * chunk_fetch_factor[1],
+                    x_idx * chunk_fetch_factor[0]))
         if new_chunk.shape[2] > half_chunk[1]:
-            new_chunk[:, :half_chunk[2], half_chunk[1]:,
-                      :half_chunk[0]] = (
-                          load_and_downscale_old_chunk(
-                              z_idx * chunk_fetch_factor[2],
-                              y_idx * chunk_fetch_factor[1] + 1,
-                              x_idx * chunk_fetch_factor[0]))
+            copy_block(
+                new_chunk[:, :half_chunk[2], half_chunk[1]:,
+                          :half_chunk[0]],
+                load_and_downscale_old_chunk(
+                    z_idx * chunk_fetch_factor[2],
+                    y_idx * chunk_fetch_factor[1] + 1,
+                    x_idx * chunk_fetch_factor[0]))
         if (new_chunk.shape[1] > half_chunk[2]
                 and new_chunk.shape[2] > half_chunk[1]):
-            new_chunk[:, half_chunk[2]:, half_chunk[1]:,
-                      :half_chunk[0]] = (
-                          load_and_downscale_old_chunk(
-                              z_idx * chunk_fetch_factor[2] + 1,
-                              y_idx * chunk_fetch_factor[1] + 1,
-                              x_idx * chunk_fetch_factor[0]))
+            copy_block(
+                new_chunk[:, half_chunk[2]:, half_chunk[1]:,
+                          :half_chunk[0]],
+                load_and_downscale_old_chunk(
+                    z_idx * chunk_fetch_factor[2] + 1,
+                    y_idx * chunk_fetch_factor[1] + 1,
+                    x_idx * chunk_fetch_factor[0]))
         if new_chunk.shape[3] > half_chunk[0]:
-            new_chunk[:, :half_chunk[2], :half_chunk[1],
-                      half_chunk[0]:] = (
-                          load_and_downscale_old_chunk(
-                              z_idx * chunk_fetch_factor[2],
-                              y_idx * chunk_fetch_factor[1],
-                              x_idx * chunk_fetch_factor[0] + 1))
+            copy_block(
+                new_chunk[:, :half_chunk[2], :half_chunk[1],
+                          half_chunk[0]:],
+                load_and_downscale_old_chunk(
+                    z_idx * chunk_fetch_factor[2],
+                    y_idx * chunk_fetch_factor[1],
+                    x_idx * chunk_fetch_factor[0] + 1))
         if (new_chunk.shape[1] > half_chunk[2]
                 and new_chunk.shape[3] > half_chunk[0]):
-            new_chunk[:, half_chunk[2]:, :half_chunk[1],
-                      half_chunk[0]:] = (
-                          load_and_downscale_old_chunk(
-                              z_idx * chunk_fetch_factor[2] + 1,
-                              y_idx * chunk_fetch_factor[1],
-                              x_idx * chunk_fetch_factor[0] + 1))
+            copy_block(
+                new_chunk[:, half_chunk[2]:, :half_chunk[1],
+                          half_chunk[0]:],
+                load_and_downscale_old_chunk(
+                    z_idx * chunk_fetch_factor[2] + 1,
+                    y_idx * chunk_fetch_factor[1],
+                    x_idx * chunk_fetch_factor[0] + 1))
         if (new_chunk.shape[2] > half_chunk[1]
                 and new_chunk.shape[3] > half_chunk[0]):
-            new_chunk[:, :half_chunk[2], half_chunk[1]:,
-                      half_chunk[0]:] = (
-                          load_and_downscale_old_chunk(
-                              z_idx * chunk_fetch_factor[2],
-                              y_idx * chunk_fetch_factor[1] + 1,
-                              x_idx * chunk_fetch_factor[0] + 1))
+            copy_block(
+                new_chunk[:, :half_chunk[2], half_chunk[1]:,
+                          half_chunk[0]:],
+                load_and_downscale_old_chunk(
+                    z_idx * chunk_fetch_factor[2],
+                    y_idx * chunk_fetch_factor[1] + 1,
+                    x_idx * chunk_fetch_factor[0] + 1))
         if (new_chunk.shape[1] > half_chunk[2]
                 and new_chunk.shape[2] > half_chunk[1]
                 and new_chunk.shape[3] > half_chunk[0]):
-            new_chunk[:, half_chunk[2]:, half_chunk[1]:,
-                      half_chunk[0]:] = (
-                          load_and_downscale_old_chunk(
-                              z_idx * chunk_fetch_factor[2] + 1,
-                              y_idx * chunk_fetch_factor[1] + 1,
-                              x_idx * chunk_fetch_factor[0] + 1))
+            copy_block(
+                new_chunk[:, half_chunk[2]:, half_chunk[1]:,
+                          half_chunk[0]:],
+                load_and_downscale_old_chunk(
+                    z_idx * chunk_fetch_factor[2] + 1,
+                    y_idx * chunk_fetch_factor[1] + 1,
+                    x_idx * chunk_fetch_factor[0] + 1))
 
         chunk_writer.write_chunk(
             new_chunk.astype(dtype), new_key, new_chunk_coords
